@@ -108,7 +108,7 @@ def make_data(dtype, shape, fill, seed=0):
 class Interp:
     """Applies op programs to a nixio file and keeps the skeleton model."""
 
-    def __init__(self, path, clock=None, auto_ts=True, compression=None, policy="fresh"):
+    def __init__(self, path, clock=None, auto_ts=True, compression=None, policy="fresh", mode="w"):
         # handle policy: "fresh" = obtain a new handle for every op (by the op's 'how');
         # "cached" = one retained handle per entity for the whole session (as a long-lived program
         # would); "two" = two retained handles per entity used alternately.  The property says the
@@ -126,7 +126,8 @@ class Interp:
         kw = {}
         if compression is not None:
             kw["compression"] = getattr(nixio.Compression, compression)
-        self.f = nixio.File.open(path, nixio.FileMode.Overwrite, auto_update_timestamps=auto_ts, **kw)
+        self.f = nixio.File.open(path, nixio.FileMode.Overwrite if mode == "w" else nixio.FileMode.ReadWrite,
+                                 auto_update_timestamps=auto_ts, **kw)
         self.root = Ent("file", "", self.f.id, None, 0)
         self.root.handle = self.f
         self.serial = 0
@@ -720,6 +721,26 @@ class Interp:
         vals = _coerce(pr.info["ptype"], op["vals"])
         self.handle(pr, op.get("how", "name")).values = vals
         pr.info["vals"] = list(vals)
+
+    def op_prop_set_other(self, op):
+        """an ATTEMPT to store values of another type than the property's: refused with TypeError (nothing changes)
+        or - should a version accept it - the values and their type are what was written last"""
+        pr = self.pick("prop", op["t"])
+        if pr is None:
+            return False
+        other = [t for t in ("int", "float", "str", "bool") if t != pr.info["ptype"]]
+        nt = other[int(op.get("seed", 0)) % len(other)]
+        vals = _coerce(nt, op["vals"])
+        if not vals or (nt == "str" and vals == [""]):
+            return False
+        try:
+            self.handle(pr, op.get("how", "name")).values = vals
+        except TypeError:
+            self.stats["prop_set_other:refused"] = self.stats.get("prop_set_other:refused", 0) + 1
+            return None
+        self.stats["prop_set_other:accepted"] = self.stats.get("prop_set_other:accepted", 0) + 1
+        pr.info["vals"] = list(vals)
+        pr.info["ptype"] = nt
 
     def op_prop_ext(self, op):
         pr = self.pick("prop", op["t"])
